@@ -81,7 +81,7 @@ func checkC12(c *ev.Ctx) {
 	r := prng.New(c.Seed, 121)
 	nlists := 60
 	if thorough(c) {
-		nlists = 300
+		nlists = 1200
 	}
 	for li := 0; li < nlists; li++ {
 		n := 1 + li%5
@@ -110,7 +110,7 @@ func checkC12(c *ev.Ctx) {
 			pads[n-1] = r.Pick(0, 4)
 			files = append(files, file{id: fmt.Sprintf("L%d-trail%d", li, t), idx: idx, pads: pads, trail: tb})
 		}
-		if thorough(c) && n <= 3 && li < 15 {
+		if thorough(c) && n <= 3 && li < 40 {
 			tot := 1
 			for i := 0; i < n; i++ {
 				tot *= 17
